@@ -122,6 +122,13 @@ def eval_case(case):
     cfg = m.config
     if json.dumps(spec, sort_keys=True) != before:
         bad("mutated:Model", "pyhf.Model modified the caller's specification")
+    if not spec["parameters"]:
+        bare = {"channels": copy.deepcopy(spec["channels"])}  # the optional 'parameters' key left out by the caller
+        b4 = json.dumps(bare, sort_keys=True)
+        pyhf.Model(bare, poi_name="mu")
+        ncmp += 1
+        if json.dumps(bare, sort_keys=True) != b4:
+            bad("mutated:Model:no_parameters_key", "pyhf.Model modified a caller's specification that has no 'parameters' key")
     # ---- partition
     pos = 0
     for name in cfg.par_order:
